@@ -176,6 +176,11 @@ pub fn load_value(j: &Value, crosscheck: bool) -> Result<Loaded, LoadError> {
     if steps.is_empty() {
         return mal("empty fri_step_list");
     }
+    if steps[0] != 0 {
+        // Stone always writes a leading 0 (the first layer is not folded); what the layer sizes of a file
+        // with another first entry "are" is not defined by the format: not judged (DESIGN §12)
+        return Err(LoadError::Unspecified("first fri_step_list entry is not 0".into()));
+    }
     let log_last = log2_exact(get_u64(&fri["last_layer_degree_bound"], "last_layer_degree_bound")?, "last_layer_degree_bound")?;
     let n_queries = get_u64(&fri["n_queries"], "n_queries")?;
     let pow_bits = get_u64(&fri["proof_of_work_bits"], "proof_of_work_bits")?;
